@@ -214,12 +214,92 @@ fn synth_non_verbose(rng: &mut Rng) -> Vec<u8> {
     w
 }
 
+fn varg(ti: u32, data: &[u8], with_len: bool) -> Vec<u8> {
+    let mut v = ti.to_le_bytes().to_vec();
+    if with_len {
+        v.extend((data.len() as u16).to_le_bytes());
+    }
+    v.extend(data);
+    v
+}
+
+/// a verbose NW_TRACE / IPC message with context id TC, as the SOME/IP plugin looks at it
+fn nw_msg(rng: &mut Rng, ts: u32, args: &[Vec<u8>]) -> Vec<u8> {
+    let payload: Vec<u8> = args.iter().flatten().copied().collect();
+    let m = DltMessage {
+        index: 0,
+        reception_time_us: 1_640_995_200_000_000 + rng.below(1_000_000),
+        ecu: DltChar4::from_buf(b"ECU1"),
+        timestamp_dms: ts,
+        standard_header: DltStandardHeader { htyp: (1 << 5) | (1 << 4) | 1, mcnt: rng.below(256) as u8, len: 0 },
+        extended_header: Some(DltExtendedHeader { verb_mstp_mtin: 0x01 | (2 << 1) | (1 << 4), noar: args.len() as u8, apid: DltChar4::from_buf(b"SOIP"), ctid: DltChar4::from_buf(if rng.chance(10) { b"TX\0\0" } else { b"TC\0\0" }) }),
+        payload,
+        payload_text: None,
+        lifecycle: 0,
+    };
+    let mut w = vec![];
+    let _ = m.to_write(&mut w);
+    w
+}
+
+/// segmented SOME/IP transfers (NWST, NWCH..., NWEN): complete, incomplete, interleaved, ends without start; and unsegmented ones
+fn synth_someip(rng: &mut Rng) -> Vec<Vec<u8>> {
+    const STRG: u32 = 0x200;
+    const RAWD: u32 = 0x400;
+    const U16: u32 = 0x42;
+    const U32: u32 = 0x43;
+    let hdr: [u8; 16] = [0x12, 0x34, 0x80, 0x01, 0, 0, 0, 16, 0, 1, 0, 2, 1, 1, 2, 0];
+    let pay: [u8; 8] = [1, 2, 3, 4, 5, 6, 7, 8];
+    let addr = [10u8, 0, 0, 1, 10, 0, 0, 2, 0, 0, 0, 1];
+    let mut ts = 10_000 + rng.below(1000) as u32;
+    let mut out = vec![];
+    let ntr = 1 + rng.below(2);
+    let mut pending: Vec<Vec<Vec<Vec<u8>>>> = vec![];
+    for t in 0..ntr {
+        let seg = 5 + t as u32 + rng.below(2) as u32 * 10;
+        let mut seq = vec![];
+        let complete = !rng.chance(3);
+        seq.push(vec![varg(STRG, b"NWST\0", true), varg(U32, &seg.to_le_bytes(), false), varg(RAWD, &addr, true), varg(U32, &0u32.to_le_bytes(), false), varg(U16, &2u16.to_le_bytes(), false), varg(U16, &16u16.to_le_bytes(), false)]);
+        seq.push(vec![varg(STRG, b"NWCH\0", true), varg(U32, &seg.to_le_bytes(), false), varg(U16, &0u16.to_le_bytes(), false), varg(RAWD, &hdr, true)]);
+        if complete {
+            seq.push(vec![varg(STRG, b"NWCH\0", true), varg(U32, &seg.to_le_bytes(), false), varg(U16, &1u16.to_le_bytes(), false), varg(RAWD, &pay, true)]);
+        }
+        seq.push(vec![varg(STRG, b"NWEN\0", true), varg(U32, &seg.to_le_bytes(), false)]);
+        if rng.chance(4) {
+            seq.push(vec![varg(STRG, b"NWEN\0", true), varg(U32, &seg.to_le_bytes(), false)]); // a repeated end
+        }
+        pending.push(seq);
+    }
+    if rng.chance(3) {
+        out.push(nw_msg(rng, ts, &[varg(RAWD, &[10, 0, 0, 1, 10, 0, 0, 2, 1], true), varg(RAWD, &[hdr.as_slice(), pay.as_slice()].concat(), true)]));
+        ts += 100;
+    }
+    if rng.chance(4) {
+        out.push(nw_msg(rng, ts, &[varg(STRG, b"NWEN\0", true), varg(U32, &99u32.to_le_bytes(), false)])); // an end without start
+        ts += 100;
+    }
+    // interleave the transfers, each in its own order
+    while pending.iter().any(|s| !s.is_empty()) {
+        let k = rng.below(pending.len() as u64) as usize;
+        if pending[k].is_empty() {
+            continue;
+        }
+        let a = pending[k].remove(0);
+        out.push(nw_msg(rng, ts, &a));
+        ts += 50 + rng.below(200) as u32;
+    }
+    out
+}
+
 fn gen(rng: &mut Rng, tier: u32) -> String {
     let pool = pool();
     let n = 1 + rng.below(if tier > 0 { 40 } else { 15 }) as usize;
     let mut msgs: Vec<Vec<u8>> = vec![];
     // runs of consecutive example messages, from random places
     let synth = rng.chance(3);
+    if rng.chance(5) {
+        msgs.extend(synth_someip(rng));
+    }
     while msgs.len() < n && !pool.is_empty() {
         if synth && rng.chance(2) {
             let m = synth_non_verbose(rng);
@@ -250,7 +330,7 @@ fn gen(rng: &mut Rng, tier: u32) -> String {
             }
         }
     }
-    msgs.truncate(n);
+    msgs.truncate(n.max(12));
     let body = msgs.iter().map(|m| hex(m)).collect::<Vec<_>>().join(";");
     if rng.chance(3) {
         format!("A | {}", body)
